@@ -600,6 +600,16 @@ func runC07(c *Ctx) {
 				c.Count("with-base-symbols")
 			}
 		}
+		if r.Chance(1, 6) {
+			// a builder that is filled and then dropped (an error path, a cancelled request):
+			// it must leave nothing behind for the tokens built after it
+			_, priv := rootKeys()
+			ab := biscuit.NewBuilder(priv)
+			for k, m := 0, 1+r.Intn(4); k < m; k++ {
+				ab.AddAuthorityFact(biscuit.Fact{Predicate: Pred{Name: fmt.Sprintf("abandoned%d", k), Terms: []Term{S(fmt.Sprintf("left-behind-%d-%d", i, k))}}.ToBiscuit()})
+			}
+			c.Count("abandoned-builder")
+		}
 		tok, err := buildTokenSpec(spec, r.Fork())
 		if err != nil {
 			if strings.HasPrefix(err.Error(), "verif:") {
@@ -629,6 +639,12 @@ func runC07(c *Ctx) {
 		}
 		if i < 2 {
 			c.Sample(map[string]string{"case": trunc(sx, 1500), "go": trunc(res, 1500)})
+		}
+		if r.Chance(1, 6) {
+			// likewise a block builder obtained from the token and dropped
+			bb := tok.CreateBlock()
+			bb.AddFact(biscuit.Fact{Predicate: Pred{Name: "abandoned", Terms: []Term{S(fmt.Sprintf("left-behind-block-%d", i))}}.ToBiscuit()})
+			c.Count("abandoned-block-builder")
 		}
 		if !strings.HasPrefix(res, "ok ") || strings.Contains(res, "differ") {
 			c.Violate("C07/library-roundtrip", "Unmarshal(Serialize(t)) does not reproduce the token: "+trunc(res, 200), map[string]interface{}{"verb": "WIRE", "case": sx, "go": res})
